@@ -537,6 +537,9 @@ func (in *instrumenter) rewriteFile(p *pkgInfo, f *ast.File, name string, write 
 				}
 			case *ast.SelectorExpr:
 				if id, ok := x.X.(*ast.Ident); ok {
+					if id.Name == "runtime" && (x.Sel.Name == "SetFinalizer" || x.Sel.Name == "AddCleanup") || id.Name == "weak" && (x.Sel.Name == "Make" || x.Sel.Name == "Pointer") || id.Name == "unique" && x.Sel.Name == "Make" {
+						in.res.Seams["gc_lifetime"]++
+					}
 					if isPkgIdent(id, timeName) {
 						if to, ok := timeFuncs[x.Sel.Name]; ok {
 							add(off(x.Pos()), int(x.End()-x.Pos()), rt+"."+to)
